@@ -546,10 +546,15 @@ func run(t *testing.T, c *compiled, order []int, reads int) execution {
 	return x
 }
 
+// curFault is the disturbed delivery of the execution being judged (fault part only; nil otherwise). It goes into the
+// replay case and selects the oracle clause of the signature.
+var curFault *faultSpec
+
 type replayCase struct {
-	Scenario scenario `json:"scenario"`
-	Order    []int    `json:"order"`
-	RefOrder []int    `json:"reference_order"`
+	Fault    *faultSpec `json:"fault,omitempty"`
+	Scenario scenario   `json:"scenario"`
+	Order    []int      `json:"order"`
+	RefOrder []int      `json:"reference_order"`
 	Differs  any      `json:"differs,omitempty"`
 }
 
@@ -572,6 +577,15 @@ func TestVerifC10(t *testing.T) {
 		c := compile(t, rc.Scenario)
 		ref := run(t, c, rc.RefOrder, 2)
 		judge(r, c, rc.RefOrder, ref, "reference")
+		if rc.Fault != nil {
+			x, fired, at := runFault(t, c, rc.Order, *rc.Fault)
+			curFault = rc.Fault
+			t.Logf("fault %s fired=%v at %q", rc.Fault, fired, at)
+			judge(r, c, rc.Order, x, "fault")
+			compare(r, c, rc.RefOrder, ref, rc.Order, x)
+			r.Eval(c.name + fmt.Sprint(rc.Order) + rc.Fault.String())
+			return
+		}
 		// a difference that stems from map iteration needs not show in one pair of executions: replay the pair 32 times
 		shownMember := map[string]bool{}
 		for k := 0; k < 32; k++ {
@@ -721,7 +735,11 @@ func dupRedundant(c *compiled, perm []int) bool {
 
 // judge evaluates the non-differential clauses of the statement on one execution.
 func judge(r *ev.Run, c *compiled, order []int, x execution, label string) {
-	rcase := replayCase{Scenario: c.sc, Order: order, RefOrder: identity(len(order))}
+	rcase := replayCase{Scenario: c.sc, Order: order, RefOrder: identity(len(order)), Fault: curFault}
+	if x.addError != "" && curFault != nil {
+		r.Violation("C10|fault-redelivery|add-fails", fmt.Sprintf("set %s, order %v, %s: a delivery without fault fails: %s", c.name, order, curFault, x.addError), rcase)
+		return
+	}
 	if x.addError != "" {
 		// the causal order is the harness's own baseline: if even that is refused the set is not a valid input
 		if label == "causal order" || label == "reference" {
@@ -875,7 +893,12 @@ func compare(r *ev.Run, c *compiled, refOrder []int, ref execution, order []int,
 				values[m] = [2]string{clip(memberValue(ref, m)), clip(memberValue(got, m))}
 			}
 		}
-		r.Violation("C10|differential|"+cls, what, replayCase{Scenario: c.sc, Order: order, RefOrder: refOrder,
+		oracle := "differential"
+		if curFault != nil {
+			oracle = "fault-redelivery"
+			what = fmt.Sprintf("set %s, order %v, %s: the final answers differ from the fault-free store (%s) for %v", c.name, order, curFault, cls, members)
+		}
+		r.Violation("C10|"+oracle+"|"+cls, what, replayCase{Fault: curFault, Scenario: c.sc, Order: order, RefOrder: refOrder,
 			Differs: map[string]any{"class": cls, "members": members, "exposed_by": clause, "values_reference_then_this_order": values}})
 	}
 }
